@@ -51,9 +51,12 @@ func (fs *FS) Mkdir(name string, perm hackpadfs.FileMode) error {
 		return err
 	}
 	if name != "." {
-		_, err := fs.Stat(path.Dir(name))
+		parent, err := fs.Stat(path.Dir(name))
 		if err != nil {
 			return fs.wrapperErr("mkdir", name, err)
+		}
+		if !parent.IsDir() {
+			return fs.wrapperErr("mkdir", name, hackpadfs.ErrNotDir)
 		}
 	}
 	return fs.wrapperErr("mkdir", name, fs.setFile(name, file.fileData))
